@@ -224,15 +224,27 @@ class FuncFlow:
 
         work = [n.id for n in cfg.nodes]
         OUT[cfg.entry.id] = transfer(cfg.entry.id, {})
+        is_handler = {n.id for n in cfg.nodes if n.kind == "handler"}
         while work:
             nid = work.pop(0)
             inn = {}
             for p in cfg.pred[nid]:
-                for k, v in OUT[p].items():
+                if nid in is_handler:
+                    # exceptional edge: the statement that raised did not complete its own (strong)
+                    # bindings — the handler sees the state *before* it, plus whatever it may have
+                    # mutated on the way (weak definitions)
+                    src = dict(IN[p])
+                    for d in self.defs_at.get(p, ()):
+                        if not d.strong:
+                            src[d.name] = src.get(d.name, frozenset()) | frozenset([d])
+                else:
+                    src = OUT[p]
+                for k, v in src.items():
                     inn[k] = inn.get(k, frozenset()) | v
+            changed_in = inn != IN[nid]
             IN[nid] = inn
             out = transfer(nid, inn)
-            if out != OUT[nid]:
+            if out != OUT[nid] or changed_in:
                 OUT[nid] = out
                 for s in cfg.succ[nid]:
                     if s not in work:
